@@ -1,8 +1,527 @@
-//! C28 — not built yet.
+//! C28 — jq-locate expressions evaluate to the located JSON node (DESIGN §4 C28),
+//! library level: `json::locate::locate_offset_detailed` + `jq::parse` + the generic
+//! evaluator (`eval_generic::eval_with_cursor`) and the JSON evaluator (`jq::eval`),
+//! `at_offset(o)` / `at_position(l; c)` through the generic evaluator.
 use crate::engine::*;
+use crate::gen::json::*;
+use crate::oracle::jsonval;
+use crate::props::c06::{model_nodes, std_to_j, MNode};
+use serde_json::{json, Value};
+use succinctly::jq::eval_generic::{eval_with_cursor, GenericResult};
+use succinctly::jq::{self, JqSemantics, OwnedValue, QueryResult};
+use succinctly::json::light::{JsonIndex, StandardJson};
+use succinctly::json::locate::locate_offset_detailed;
 
-pub const RULE: &str = "not built";
+pub const RULE: &str = "G-json documents without duplicate keys, hostile key palette (empty, spaces, quotes, backslashes, control characters, `\\(`, digits-first, non-ASCII, every jq keyword, `$__loc__`), full string palette, whitespace in every gap and around the root, nested arrays; for every scalar and key token every byte offset inside it (sampled when longer than 16 bytes) and for every container its opening bracket: locate_offset_detailed(o) must give the token's/container's recorded span and kind and an expression that jq::parse accepts and that evaluates (generic evaluator and JSON evaluator) to the model value of the node (for a key: the value it names); at_offset(o) and at_position(naive line; column) must evaluate to the token's own value (the key string for a key). Non-trivial: node at depth >= 2 reached through >= 1 key that needs bracket notation or is non-ASCII or a jq keyword; distinct by hash(text, offset).";
+
+// ------------------------------------------------------------------ reading results
+
+fn owned_to_j(o: &OwnedValue) -> J {
+    match o {
+        OwnedValue::Null => J::Null,
+        OwnedValue::Bool(b) => J::Bool(*b),
+        OwnedValue::Int(i) => J::int(*i),
+        OwnedValue::Float(f) => J::Num(Num { text: format!("{:e}", f), value: *f, int: None }),
+        OwnedValue::NumberLiteral(_, text) => {
+            let f = o.as_f64().unwrap_or(f64::NAN);
+            J::Num(Num { text: text.to_string(), value: f, int: None })
+        }
+        OwnedValue::String(s) => J::Str(s.clone()),
+        OwnedValue::Array(a) => J::Arr(a.iter().map(owned_to_j).collect()),
+        OwnedValue::Object(m) => J::Obj(m.iter().map(|(k, v)| (k.clone(), owned_to_j(v))).collect()),
+    }
+}
+
+fn generic_to_j(r: GenericResult<StandardJson<'_, Vec<u64>>>) -> Result<J, String> {
+    match r {
+        GenericResult::One(v) => std_to_j(v),
+        GenericResult::OneCursor(c) => std_to_j(c.value()),
+        GenericResult::Owned(o) => Ok(owned_to_j(&o)),
+        GenericResult::Error(e) => Err(format!("error: {}", e)),
+        GenericResult::None => Err("no output".into()),
+        GenericResult::Many(v) => Err(format!("{} outputs", v.len())),
+        GenericResult::ManyCursor(v) => Err(format!("{} outputs", v.len())),
+        GenericResult::ManyOwned(v) => Err(format!("{} outputs", v.len())),
+        _ => Err("unexpected result shape".into()),
+    }
+}
+
+fn query_to_j(r: QueryResult<'_, Vec<u64>>) -> Result<J, String> {
+    match r {
+        QueryResult::One(v) => std_to_j(v),
+        QueryResult::OneCursor(c) => std_to_j(c.value()),
+        QueryResult::Owned(o) => Ok(owned_to_j(&o)),
+        QueryResult::Error(e) => Err(format!("error: {}", e)),
+        QueryResult::None => Err("no output".into()),
+        QueryResult::Many(v) => Err(format!("{} outputs", v.len())),
+        QueryResult::ManyOwned(v) => Err(format!("{} outputs", v.len())),
+        _ => Err("unexpected result shape".into()),
+    }
+}
+
+// ------------------------------------------------------------------ paths
+
+#[derive(Clone, Debug)]
+enum Seg {
+    Idx(usize),
+    Key(String),
+}
+
+/// Path (from the root) of the value that span `i` stands for (a key stands for the
+/// value it names).
+fn path_of(r: &Rendered, nodes: &[MNode<'_>], i: usize) -> Vec<Seg> {
+    let mut i = match r.spans[i].role {
+        Role::Key => r.spans[i].value_of_key.expect("key names a value"),
+        Role::Value => i,
+    };
+    let mut segs = vec![];
+    while let Some(p) = r.spans[i].parent {
+        if r.spans[p].kind == "array" {
+            segs.push(Seg::Idx(r.spans[i].ordinal));
+        } else {
+            // the key span precedes its value span in document order; find it through
+            // the model: the parent's ordinal-th field
+            if let MNode::Val(J::Obj(f)) = nodes[p] {
+                segs.push(Seg::Key(f[r.spans[i].ordinal].0.clone()));
+            }
+        }
+        i = p;
+    }
+    segs.reverse();
+    segs
+}
+
+/// The documented rule for dot notation (doc comment of `can_use_dot_notation`): starts
+/// with a letter or underscore, then only alphanumerics and underscores.
+fn dot_eligible(k: &str) -> bool {
+    let mut cs = k.chars();
+    match cs.next() {
+        Some(c) if c.is_alphabetic() || c == '_' => cs.all(|c| c.is_alphanumeric() || c == '_'),
+        _ => false,
+    }
+}
+
+fn is_keyword(k: &str) -> bool {
+    JQ_KEYWORDS.contains(&k)
+}
+
+/// Rendering of a path written for the harness: `.["k"][0].name...`; a key gets dot
+/// notation only if it is dot-eligible and `bracket_this` does not ask for brackets;
+/// strings escaped like JSON (every control character as \uXXXX).
+fn bracket_expr(segs: &[Seg], bracket_this: &dyn Fn(&str) -> bool) -> String {
+    if segs.is_empty() {
+        return ".".into();
+    }
+    let mut s = String::new();
+    for (n, seg) in segs.iter().enumerate() {
+        match seg {
+            Seg::Idx(i) => {
+                if n == 0 {
+                    s.push('.');
+                }
+                s.push_str(&format!("[{}]", i));
+            }
+            Seg::Key(k) => {
+                if dot_eligible(k) && !bracket_this(k) {
+                    s.push('.');
+                    s.push_str(k);
+                    continue;
+                }
+                if n == 0 {
+                    s.push('.');
+                }
+                s.push_str("[\"");
+                for c in k.chars() {
+                    match c {
+                        '"' => s.push_str("\\\""),
+                        '\\' => s.push_str("\\\\"),
+                        c if (c as u32) < 0x20 || c == '\u{7f}' => s.push_str(&format!("\\u{:04x}", c as u32)),
+                        c => s.push(c),
+                    }
+                }
+                s.push_str("\"]");
+            }
+        }
+    }
+    s
+}
+
+/// `]` `.` followed by a non-ASCII character somewhere in the expression.
+fn non_ascii_dot_after_bracket(e: &str) -> bool {
+    let cs: Vec<char> = e.chars().collect();
+    cs.windows(3).any(|w| w[0] == ']' && w[1] == '.' && !w[2].is_ascii())
+}
+
+fn eval_both(expr_text: &str, root: succinctly::json::light::JsonCursor<'_, Vec<u64>>) -> Result<(J, J), String> {
+    // (a panic inside the parser is caught here so that it gets a signature of its own
+    // instead of the engine's catch-all `panic@file`)
+    let expr = match catch(|| jq::parse(expr_text)) {
+        Ok(r) => r.map_err(|e| format!("parse: {} at {}", e.message, e.position))?,
+        Err((loc, msg)) => return Err(format!("parse-panic: {} @ {}", msg, panic_sig(&loc))),
+    };
+    let a = generic_to_j(eval_with_cursor(&expr, root)).map_err(|e| format!("generic: {}", e))?;
+    let b = query_to_j(jq::eval::<Vec<u64>, JqSemantics>(&expr, root)).map_err(|e| format!("json-eval: {}", e))?;
+    Ok((a, b))
+}
+
+// ------------------------------------------------------------------ one (document, offset)
+
+pub fn naive_line_col(text: &[u8], o: usize) -> (usize, usize) {
+    // LF, CR and CRLF each end a line; a terminator at the very end starts no new line
+    let mut line = 1usize;
+    let mut start = 0usize;
+    let mut i = 0usize;
+    while i < text.len() {
+        let next = match text[i] {
+            b'\n' => i + 1,
+            b'\r' if i + 1 < text.len() && text[i + 1] == b'\n' => i + 2,
+            b'\r' => i + 1,
+            _ => {
+                i += 1;
+                continue;
+            }
+        };
+        if next > o || next >= text.len() {
+            break;
+        }
+        line += 1;
+        start = next;
+        i = next;
+    }
+    (line, o - start + 1)
+}
+
+struct DocCx<'a> {
+    root: &'a J,
+    r: &'a Rendered,
+    nodes: Vec<MNode<'a>>,
+}
+
+const OPEN_SHAPES: &[&str] = &[
+    // a jq keyword key printed in dot notation: unparseable (`.and`, `.then.x`) or parsed
+    // as an operator (`.and[1]` = `. and [1]`)
+    "C28/locate-expr/dot-notation-for-keyword-key",
+    // `]` `.` non-ASCII identifier: jq::parse panicked slicing inside the character
+    // (fixed in /repo by 0b4d05d; the shape keeps its own signature as a regression guard)
+    "C28/locate-expr/parser-panic/non-ascii-dot-key-after-bracket",
+];
+
+/// Ok(Some(fail)): the located expression failed in one of the two open, narrowly
+/// recognised shapes; everything else about this offset was still checked.
+fn check_offset(d: &DocCx<'_>, index: &JsonIndex, si: usize, o: usize, st: &mut Stats) -> Result<Option<Fail>, Fail> {
+    let mut deferred: Option<Fail> = None;
+    let r = d.r;
+    let text = &r.text[..];
+    let sp = &r.spans[si];
+    let root = index.root(text);
+    let is_key = sp.role == Role::Key;
+    let role = if is_key { "key" } else if sp.kind == "array" || sp.kind == "object" { "container" } else { "scalar" };
+    // the value the located expression must produce / the token's own value
+    let target: &J = match d.nodes[if is_key { sp.value_of_key.unwrap() } else { si }] {
+        MNode::Val(v) => v,
+        MNode::Key(_) => unreachable!("value_of_key points at a value"),
+    };
+    let own_key;
+    let own: &J = match d.nodes[si] {
+        MNode::Key(k) => {
+            own_key = J::Str(k.to_string());
+            &own_key
+        }
+        MNode::Val(v) => v,
+    };
+    let segs = path_of(r, &d.nodes, si);
+    let info = |extra: Value| {
+        let mut m = json!({"offset": o, "role": role, "token": show_bytes(&text[sp.start..sp.end.min(sp.start + 80)]), "span": [sp.start, sp.end], "path": format!("{:?}", segs), "input": crate::props::c06::text_json(text)});
+        if let (Some(a), Some(b)) = (m.as_object_mut(), extra.as_object()) {
+            for (k, v) in b {
+                a.insert(k.clone(), v.clone());
+            }
+        }
+        m
+    };
+
+    // ---- locate
+    let res = match locate_offset_detailed(index, text, o) {
+        Some(x) => x,
+        None => fail!(format!("C28/locate/none/{}", role), info(json!({}))),
+    };
+    st.evals(1);
+    if res.byte_range != (sp.start, sp.end) {
+        fail!(format!("C28/locate/byte_range/{}", role), info(json!({"expression": res.expression, "expected_range": [sp.start, sp.end], "actual_range": [res.byte_range.0, res.byte_range.1]})));
+    }
+    if res.value_type != sp.kind {
+        fail!(format!("C28/locate/value_type/{}", role), info(json!({"expression": res.expression, "expected_type": sp.kind, "actual_type": res.value_type})));
+    }
+    let kw_on_path: Vec<&str> = segs.iter().filter_map(|s| match s {
+        Seg::Key(k) if is_keyword(k) => Some(k.as_str()),
+        _ => None,
+    }).collect();
+    // outcome of evaluating the located expression: Err((kind, message))
+    let outcome: Result<(), (String, String)> = match eval_both(&res.expression, root) {
+        Ok((a, b)) => {
+            st.evals(2);
+            let mut r = Ok(());
+            for (route, got) in [("generic", &a), ("json-eval", &b)] {
+                if !j_eq(got, target) {
+                    r = Err((format!("wrong-value/{}", route), format!("expected {} got {}", to_compact(target), to_compact(got))));
+                    break;
+                }
+            }
+            r
+        }
+        Err(e) if e.starts_with("parse:") => Err(("unparseable".into(), e)),
+        Err(e) if e.starts_with("parse-panic:") => Err(("parser-panic".into(), e)),
+        Err(e) => Err(("eval-failed".into(), e)),
+    };
+    if let Err((kind, msg)) = outcome {
+        // Classify the failure shape. Two open findings have shapes of their own; each
+        // is recognised only if the same path with just the offending keys in bracket
+        // notation parses and evaluates to the model value on both evaluators (so the
+        // dot notation of those keys is the whole problem).
+        let mut sig = format!("C28/locate-expr/{}/{}", kind, role);
+        let mut alt_note = Value::Null;
+        let try_alt = |pred: &dyn Fn(&str) -> bool| -> (bool, Value) {
+            let alt = bracket_expr(&segs, pred);
+            match eval_both(&alt, root) {
+                Ok((a, b)) if j_eq(&a, target) && j_eq(&b, target) => (true, json!({"same_path_with_offending_keys_bracketed": alt, "evaluates_correctly": true})),
+                other => (false, json!({"same_path_with_offending_keys_bracketed": alt, "evaluates_correctly": false, "result": format!("{:?}", other.map(|(a, _)| to_compact(&a)))})),
+            }
+        };
+        // (both shapes can occur on one path: when bracketing only one kind of key is
+        // not enough because the other open shape is on the path too, both kinds are
+        // bracketed; the signature follows the manifestation)
+        let both = |k: &str| is_keyword(k) || !k.is_ascii();
+        let has_non_ascii = segs.iter().any(|s| matches!(s, Seg::Key(k) if !k.is_ascii()));
+        if kind != "parser-panic" && !kw_on_path.is_empty() {
+            let (mut ok, mut note) = try_alt(&|k| is_keyword(k));
+            if !ok && has_non_ascii {
+                (ok, note) = try_alt(&both);
+            }
+            if ok {
+                sig = OPEN_SHAPES[0].to_string();
+            }
+            alt_note = note;
+        } else if kind == "parser-panic" && msg.contains("is not a char boundary") && non_ascii_dot_after_bracket(&res.expression) {
+            let (mut ok, mut note) = try_alt(&|k| !k.is_ascii());
+            if !ok && !kw_on_path.is_empty() {
+                (ok, note) = try_alt(&both);
+            }
+            if ok {
+                sig = OPEN_SHAPES[1].to_string();
+            }
+            alt_note = note;
+        }
+        let f = Fail::new(sig.clone(), info(json!({"expression": res.expression, "manifestation": kind, "failure": msg, "keyword_keys_on_path": kw_on_path, "alt": alt_note})));
+        if OPEN_SHAPES.contains(&sig.as_str()) {
+            deferred = Some(f);
+        } else {
+            return Err(f);
+        }
+    }
+
+    // ---- at_offset / at_position
+    let (line, col) = naive_line_col(text, o);
+    for (name, prog) in [("at_offset", format!("at_offset({})", o)), ("at_position", format!("at_position({}; {})", line, col))] {
+        let expr = match jq::parse(&prog) {
+            Ok(e) => e,
+            Err(e) => fail!(format!("C28/{}/unparseable", name), info(json!({"program": prog, "error": e.message}))),
+        };
+        match generic_to_j(eval_with_cursor(&expr, root)) {
+            Ok(got) => {
+                if !j_eq(&got, own) {
+                    fail!(format!("C28/{}/wrong-value/{}", name, role), info(json!({"program": prog, "expected": to_compact(own), "actual": to_compact(&got)})));
+                }
+            }
+            Err(e) => fail!(format!("C28/{}/failed/{}", name, role), info(json!({"program": prog, "failure": e}))),
+        }
+        st.evals(1);
+    }
+    Ok(deferred)
+}
+
+fn token_offsets(u: &mut Src, sp: &Span) -> Vec<usize> {
+    if sp.kind == "array" || sp.kind == "object" {
+        return vec![sp.start];
+    }
+    let n = sp.end - sp.start;
+    if n <= 16 {
+        return (sp.start..sp.end).collect();
+    }
+    let mut v: Vec<usize> = (sp.start..sp.start + 4).chain(sp.end - 4..sp.end).collect();
+    for _ in 0..5 {
+        v.push(u.range(sp.start, sp.end - 1));
+    }
+    v.sort();
+    v.dedup();
+    v
+}
+
+fn check_doc(root_j: &J, r: &Rendered, u: &mut Src, st: &mut Stats, max_tokens: usize) -> Result<(), Fail> {
+    let d = DocCx { root: root_j, r, nodes: model_nodes(root_j) };
+    let _ = d.root;
+    if d.nodes.len() != r.spans.len() {
+        fail!("harness/C28/span-table-size", {"nodes": d.nodes.len(), "spans": r.spans.len()});
+    }
+    let index = JsonIndex::build(&r.text);
+    let n = r.spans.len();
+    let picks: Vec<usize> = if n <= max_tokens {
+        (0..n).collect()
+    } else {
+        let mut v: Vec<usize> = (0..max_tokens).map(|_| u.below(n)).collect();
+        v.sort();
+        v.dedup();
+        v
+    };
+    let mut known: Option<Fail> = None;
+    for si in picks {
+        let sp = &r.spans[si];
+        let segs = path_of(r, &d.nodes, si);
+        let hostile = segs.iter().any(|s| matches!(s, Seg::Key(k) if !dot_eligible(k) || !k.is_ascii() || is_keyword(k)));
+        let kw = segs.iter().any(|s| matches!(s, Seg::Key(k) if is_keyword(k)));
+        let depth = segs.len();
+        for o in token_offsets(u, sp) {
+            if depth >= 2 && hostile {
+                st.nontrivial(mix64(hash_bytes(&r.text) ^ (o as u64).rotate_left(40)));
+                st.class("offset-nontrivial");
+            }
+            st.class(if sp.role == Role::Key { "offset-in-key" } else if sp.kind == "array" || sp.kind == "object" { "offset-on-open-bracket" } else { "offset-in-scalar" });
+            st.class_if(kw, "offset-keyword-on-path");
+            st.class_if(o > sp.start, "offset-inside-token");
+            // an open-shape failure does not stop the document: the rest is still
+            // checked and the case is reported (excluded while the finding is open) at
+            // the end
+            if let Some(f) = check_offset(&d, &index, si, o, st)? {
+                if known.is_none() {
+                    known = Some(f);
+                }
+            }
+        }
+    }
+    match known {
+        Some(f) => Err(f),
+        None => Ok(()),
+    }
+}
+
+fn gen_doc(u: &mut Src) -> (J, Rendered, RenderOpts) {
+    let o = GenOpts {
+        max_depth: *u.pick(&[1, 2, 3, 4, 6]),
+        max_nodes: match u.below(4) {
+            0 => u.range(1, 6),
+            _ => u.range(4, 60),
+        },
+        dup_keys: false,
+        strings: *u.pick(&[StrPalette::Full, StrPalette::Full, StrPalette::Ascii]),
+        keys: if u.ratio(1, 8) { KeyPalette::AsStrings } else { KeyPalette::Hostile },
+        numbers: 2,
+        max_str_len: *u.pick(&[4, 12, 40]),
+    };
+    let mut j = gen_value(u, &o);
+    if u.ratio(1, 6) {
+        // nested arrays / single-key objects around the document
+        let d = u.range(1, 6);
+        j = wrap_deep(u, j, d);
+    }
+    let mut ro = render_opts(u);
+    if u.bool() {
+        ro.outer_ws = true;
+    }
+    let r = render(&j, u, ro);
+    (j, r, ro)
+}
+
+fn replay_input(v: &Value) -> Option<Fail> {
+    // {"input": {"doc": "<compact JSON text>", "offset": n}}: the document is parsed by
+    // O-jsonval and re-rendered compactly (span table from the renderer); the offset
+    // refers to that compact text.
+    let doc = v["input"]["doc"].as_str().unwrap_or("null");
+    let o = v["input"]["offset"].as_u64().unwrap_or(0) as usize;
+    let root = match jsonval::parse_one(doc.as_bytes()) {
+        Ok(j) => j,
+        Err(e) => return Some(Fail::new("harness/C28/replay-doc-unparseable", json!({"err": format!("{:?}", e)}))),
+    };
+    let mut u = Src::new(&[]);
+    let r = render(&root, &mut u, RenderOpts { ws: Ws::None, esc: Esc::Minimal, outer_ws: false });
+    if r.text != doc.as_bytes() {
+        return Some(Fail::new("harness/C28/replay-doc-not-canonical", json!({"doc": doc, "rendered": show_bytes(&r.text)})));
+    }
+    let d = DocCx { root: &root, r: &r, nodes: model_nodes(&root) };
+    let index = JsonIndex::build(&r.text);
+    let si = match r.spans.iter().rposition(|s| s.start <= o && o < s.end && (o == s.start || !(s.kind == "array" || s.kind == "object"))) {
+        Some(si) => si,
+        None => return Some(Fail::new("harness/C28/replay-offset-not-qualifying", json!({"offset": o}))),
+    };
+    let mut st = Stats::default();
+    match check_offset(&d, &index, si, o, &mut st) {
+        Ok(f) => f,
+        Err(f) => Some(f),
+    }
+}
 
 pub fn run(cx: &mut Ctx) {
-    cx.infra("check not built");
+    cx.assume("expected values and spans come from the G-json model and the renderer's span table; results are read back through StandardJson navigation (checked by C06) or OwnedValue");
+    cx.assume("library level only: locate_offset_detailed + jq::parse + eval_generic::eval_with_cursor + jq::eval; the CLI layer (`succinctly jq-locate`, `succinctly jq`) is sampled separately");
+    cx.assume("numbers are compared as doubles");
+    for (name, v) in cx.replays.clone() {
+        if v["kind"] == "input" {
+            let r = replay_input(&v);
+            cx.replay_outcome(&name, r);
+        }
+    }
+    let thorough = cx.tier == Tier::Thorough;
+    let max_tokens = if thorough { 60 } else { 40 };
+    cx.check(
+        "locate-eval",
+        RULE,
+        Budget { quick: 60_000, thorough: 1_500_000, max_len: 6000 },
+        |u, st| {
+            let (j, r, ro) = gen_doc(u);
+            let text = &r.text;
+            st.describe(|| json!({"doc": to_compact(&j), "rendered": crate::props::c06::text_json(text)}));
+            st.class(&format!("ws-{:?}", ro.ws));
+            st.class_if(text.first().map_or(false, |b| b.is_ascii_whitespace()), "whitespace-before-root");
+            st.class_if(text.contains(&b'\n') || text.contains(&b'\r'), "multi-line");
+            let nodes = model_nodes(&j);
+            let mut kinds = [false; 8];
+            for n in &nodes {
+                if let MNode::Key(k) = n {
+                    kinds[0] |= k.is_empty();
+                    kinds[1] |= is_keyword(k);
+                    kinds[2] |= !k.is_ascii();
+                    kinds[3] |= k.contains('"') || k.contains('\\');
+                    kinds[4] |= k.chars().any(|c| (c as u32) < 0x20);
+                    kinds[5] |= k.starts_with(|c: char| c.is_ascii_digit());
+                    kinds[6] |= k.contains("\\(");
+                    kinds[7] |= dot_eligible(k) && !is_keyword(k);
+                }
+            }
+            for (b, name) in kinds.iter().zip(["key-empty", "key-jq-keyword", "key-non-ascii", "key-quote-or-backslash", "key-control-char", "key-digit-first", "key-interpolation-lookalike", "key-plain-identifier"]) {
+                st.class_if(*b, name);
+            }
+            st.size(text.len());
+            st.sample(if kinds[1] { "keyword" } else { "plain" }, || json!({"text": show_bytes(&text[..text.len().min(240)]), "len": text.len(), "nodes": nodes.len()}));
+            drop(nodes);
+            check_doc(&j, &r, u, st, max_tokens)
+        },
+    );
+    for cl in [
+        "offset-nontrivial",
+        "offset-in-key",
+        "offset-in-scalar",
+        "offset-on-open-bracket",
+        "offset-inside-token",
+        "offset-keyword-on-path",
+        "key-empty",
+        "key-jq-keyword",
+        "key-non-ascii",
+        "key-quote-or-backslash",
+        "key-control-char",
+        "key-digit-first",
+        "key-interpolation-lookalike",
+        "key-plain-identifier",
+        "whitespace-before-root",
+        "multi-line",
+    ] {
+        cx.require_class("locate-eval", cl, 20);
+    }
 }
